@@ -89,13 +89,34 @@ def quiet():
         yield buf
 
 
-def feed(descriptor, tables):
+_END = object()
+
+
+def feed(descriptor, tables, sequential=False):
     """A DataStream holding `tables` (list of row lists) typed by `descriptor`.
-    Deep copies both, so the case is never mutated by the code under test."""
+    Deep copies both, so the case is never mutated by the code under test.
+
+    sequential=True emulates a streaming source (like `unstream` or a checkpoint reader): all
+    resources are read from ONE underlying sequence with end-of-resource markers, so a
+    resource's iterator only yields its own rows if every earlier resource was fully consumed
+    first - exactly the contract the framework's lazy chaining relies on."""
     pkg = Package(copy.deepcopy(descriptor))
     assert len(pkg.resources) == len(tables), 'harness: descriptor/tables mismatch'
-    return DataStream(pkg, [ResourceWrapper(res, iter(copy.deepcopy(rows)))
-                            for res, rows in zip(pkg.resources, tables)])
+    if not sequential:
+        return DataStream(pkg, [ResourceWrapper(res, iter(copy.deepcopy(rows)))
+                                for res, rows in zip(pkg.resources, tables)])
+    flat = []
+    for rows in tables:
+        flat.extend(copy.deepcopy(rows))
+        flat.append(_END)
+    shared = iter(flat)
+
+    def reader():
+        for item in shared:
+            if item is _END:
+                return
+            yield item
+    return DataStream(pkg, (ResourceWrapper(res, reader()) for res in pkg.resources))
 
 
 def materialise(ds):
@@ -181,3 +202,13 @@ def _install_profile_cache():
 
 if os.environ.get('VERIF_NO_PROFILE_CACHE') != '1':
     _install_profile_cache()
+
+
+def passthrough_desc(descriptor):
+    """The descriptor as it looks after passing through one no-op step (datapackage's commit()
+    expands defaults such as field format 'default').  Used as the 'unchanged' reference."""
+    pkg = Package(copy.deepcopy(descriptor))
+    ds = DataStream(pkg, [ResourceWrapper(r, iter(())) for r in pkg.resources])
+    with quiet():
+        out = Flow(dataflows.DataStreamProcessor()).datastream(ds)
+        return copy.deepcopy(out.dp.descriptor)
